@@ -480,8 +480,9 @@ impl DrawExecutor {
             i += 2;
         }
 
-        // VDI apparently loops over the scan lines from bottom to top
-        for y in (y_min..=y_max).rev() {
+        // VDI apparently loops over the scan lines from bottom to top (only the lines on the screen are visible)
+        let res = self.get_resolution();
+        for y in (y_min.max(0)..=y_max.min(res.height - 1)).rev() {
             // Set up counter for vector intersections
             let mut intersections = 0;
 
@@ -563,7 +564,7 @@ impl DrawExecutor {
                 let x1 = edge_buffer[j];
                 let x2 = edge_buffer[j + 1];
                 // Fill in all pixels horizontally from (x1, y) to (x2, y)
-                for k in x1..=x2 {
+                for k in x1.max(0)..=x2.min(res.width - 1) {
                     self.fill_pixel(k, y);
                 }
                 j += 2;
